@@ -8,6 +8,7 @@ import (
 	"os/exec"
 	"runtime"
 	"strings"
+	"sync/atomic"
 	"syscall"
 	"time"
 
@@ -35,7 +36,7 @@ func init() {
 			return 5760
 		},
 		Run:        runC17,
-		Required:   []string{"runs.cross_process_stuttered", "runs.in_process", "runs.same_input_objects", "runs.copied_options", "runs.cross_process", "scenarios.random_population", "scenarios.spawned", "scenarios.modular_start_genome_with_crossover", "runs.through_experiment_execute", "epochs.compared", "scenarios.fitness_with_ties", "scenarios.fitness_mostly_negative", "scenarios.population_of_thousands"},
+		Required:   []string{"runs.cross_process_stuttered", "runs.in_process", "runs.same_input_objects", "runs.copied_options", "runs.cross_process", "scenarios.random_population", "scenarios.spawned", "scenarios.modular_start_genome_with_crossover", "runs.through_experiment_execute", "epochs.compared", "scenarios.fitness_with_ties", "scenarios.fitness_mostly_negative", "scenarios.population_of_thousands", "runs.served_by_an_executor_used_before"},
 		TimeoutSec: func(tier string) int { return 7200 },
 	})
 }
@@ -150,6 +151,49 @@ func c17Fitness(sc *EvoScenario, coarse, signed bool, g *genetics.Genome) float6
 
 // c17Execute runs the scenario from the seed and returns hash of the population after every epoch
 func c17Execute(sc *EvoScenario, libSeed int64) *c17Result {
+	return c17ExecuteWith(sc, libSeed, &genetics.SequentialPopulationEpochExecutor{})
+}
+
+// c17UsedExecutor returns an executor object that has served another, unrelated population before: a few complete turnovers
+// and then one that was cancelled while the species reproduced
+func c17UsedExecutor(seed int64) *genetics.SequentialPopulationEpochExecutor {
+	ex := &genetics.SequentialPopulationEpochExecutor{}
+	g := rand.New(rand.NewSource(seed ^ 0x77))
+	rand.Seed(seed ^ 0x4242)
+	sc := genScenario(g, false)
+	sc.Ctor = ctorSpawn
+	sc.RepeatIds, sc.BySpeciesFactor = 0, 0
+	sc.Opts.PopSize = 24
+	sc.Opts.BabiesStolen = 0
+	sc.Opts.CompatThreshold = 0.5
+	pop, err := sc.construct()
+	if err != nil {
+		return ex
+	}
+	for gen := 0; gen < 4; gen++ {
+		for i, org := range pop.Organisms {
+			org.Fitness = float64(1 + (i*7+gen)%5)
+		}
+		ctx, cancel := context.WithCancel(context.Background())
+		if gen == 3 {
+			var n int32
+			genetics.VerifHooks.ReproduceStart = func(*genetics.Species, *genetics.Population, int) {
+				if atomic.AddInt32(&n, 1) == 2 {
+					cancel()
+				}
+			}
+		}
+		err = ex.NextEpoch(neat.NewContext(ctx, sc.Opts), gen, pop)
+		genetics.VerifHooks.ReproduceStart = nil
+		cancel()
+		if err != nil {
+			break
+		}
+	}
+	return ex
+}
+
+func c17ExecuteWith(sc *EvoScenario, libSeed int64, ex *genetics.SequentialPopulationEpochExecutor) *c17Result {
 	res := &c17Result{}
 	rand.Seed(libSeed)
 	pop, err := sc.construct()
@@ -163,7 +207,6 @@ func c17Execute(sc *EvoScenario, libSeed int64) *c17Result {
 			return res
 		}
 	}
-	ex := &genetics.SequentialPopulationEpochExecutor{}
 	ctx := neat.NewContext(context.Background(), sc.Opts)
 	for gen := 0; gen < sc.Epochs; gen++ {
 		for _, org := range pop.Organisms {
@@ -419,6 +462,23 @@ func runC17(c *Ctx, idx int) {
 			dd := detail()
 			dd["first_execution"], dd["second_execution"] = h1, h2
 			c.Violate("in-process/execute", dd, "two executions of Experiment.Execute (new Experiment values, same start genome and option values, same seed of the global source) diverge at generation %d", d)
+			return
+		}
+	}
+	if idx%4 == 1 && first.errText == "" && !sc.hugePopulation {
+		// the executor object has served an unrelated population before (its last turnover there was cancelled half way): earlier
+		// unrelated work in the process, of which nothing may show
+		scU, libSeedU := c17Scenario(c.Seed, idx)
+		viaUsed := c17ExecuteWith(scU, libSeedU, c17UsedExecutor(libSeed))
+		c.Count("runs.served_by_an_executor_used_before", 1)
+		if viaUsed.errText != first.errText {
+			c.Violate("in-process/error", detail(), "the first run ended with %q, the run served by an executor object used before with %q", first.errText, viaUsed.errText)
+			return
+		}
+		if d := firstDiff(first.hashes, viaUsed.hashes); d >= 0 {
+			dd := detail()
+			dd["first_run"], dd["run_with_used_executor"] = first.hashes, viaUsed.hashes
+			c.Violate("in-process/used-executor", dd, "a run served by an executor object that had served an unrelated population before (last turnover cancelled) diverges from the first one at epoch %d", d)
 			return
 		}
 	}
